@@ -231,7 +231,27 @@ def check_refusal(params):
 
 
 from mc.core import safe  # noqa: E402
-CASES = {k: safe("C10", f) for k, f in {"perm": check_perm, "swap": check_swap, "refusal": check_refusal}.items()}
+def check_reuse(params):
+    """The caller's permutation list is an input, not scratch space: it must be unchanged after
+    the call, and calling again with the same list object must give the same diagram."""
+    cls, perm = params["cls"], list(params["perm"])
+    D, Swap, wire = class_kit(cls)
+    dom = ty_of(cls, range(len(perm)))
+    out = []
+    arg = list(perm)
+    first = D.permutation(arg, dom)
+    if arg != perm:
+        out.append((_sig("argument-mutated", params), "%s.permutation(%s, ...) changed the caller's list to %s"
+                    % (cls, perm, arg)))
+    second = D.permutation(arg, dom)
+    third = D.permutation(list(perm), dom)
+    if ref.diagram_key(second) != ref.diagram_key(first) or ref.diagram_key(third) != ref.diagram_key(first):
+        out.append((_sig("call-history", params), "%s.permutation(%s, ...) gives different diagrams on repeated calls "
+                    "with the same list" % (cls, perm)))
+    return out
+
+
+CASES = {k: safe("C10", f) for k, f in {"perm": check_perm, "swap": check_swap, "refusal": check_refusal, "reuse": check_reuse}.items()}
 
 
 def _worker(shard):
@@ -274,6 +294,8 @@ def run(ctx):
                 if cls == "tensor" and n > 6:
                     continue
                 items.append(("perm", dict(cls=cls, perm=list(perm))))
+                if n <= 4:
+                    items.append(("reuse", dict(cls=cls, perm=list(perm))))
                 if n <= 4:
                     items.append(("perm", dict(cls=cls, perm=list(perm), kind="permute")))
                     if cls != "tensor":
